@@ -17,7 +17,7 @@ from . import env, rec  # noqa: F401
 
 ID_DTYPES = ['uint32', 'int32', 'int64']
 TIME_DTYPES = ['uint64', 'int64', 'uint32', 'int32']
-RATES = [100.0, 2000.0, 30000.0]
+RATES = [100.0, 2000.0, 30000.0, 29999.954, 24414.0625]
 
 ALF_NAMES = {
     'spike_templates.npy': 'spikes.templates.npy',
@@ -185,6 +185,8 @@ def dataset_spec(draw, naming=None, dense=None, raw=None, curated=None, features
                                            unique=True)))
         t.update(nloc=nloc, cols=cols, zero_cols=zero_cols,
                  cols_dtype=draw(st.sampled_from(['int32', 'int64'])))
+    # KS2 also writes templates_ind.npy (with an s), which the loader deliberately ignores
+    t['ks2_templates_ind'] = bool(is_dense and draw(st.booleans()))
     spec['templates'] = t
     w = _opt(draw, whitening, _present)
     spec['wm'] = w
@@ -229,8 +231,8 @@ def dataset_spec(draw, naming=None, dense=None, raw=None, curated=None, features
                       'rows_dtype': draw(st.sampled_from(['int64', 'int32']))}
     else:
         spec['tf'] = None
-    spec['attrs'] = draw(st.lists(st.sampled_from(['good', 'badlen', 'twod']), max_size=3,
-                                  unique=True))
+    spec['attrs'] = draw(st.lists(st.sampled_from(['good', 'badlen', 'twod', 'times_sec',
+                                                    'templates_orig']), max_size=4, unique=True))
     spec['nan'] = bool(nan and draw(st.booleans()))
     # raw data
     r = _opt(draw, raw, _present)
@@ -365,6 +367,8 @@ def build(spec, dirpath, write_params=True):
                 data[unused[0], :, 0] = np.nan
     T.templates = data
     save('templates.npy', data)
+    if t.get('ks2_templates_ind') and not alf:
+        np.save(d / 'templates_ind.npy', np.tile(np.arange(nc), (nt, 1)).astype(np.float64))
     if spec['wm']:
         T.wm = np.eye(nc) + 0.1 * rs.randn(nc, nc)
         np.save(d / 'whitening_mat.npy', T.wm)
@@ -423,6 +427,10 @@ def build(spec, dirpath, write_params=True):
             T.attrs['twod'] = arr
         elif a == 'badlen':
             np.save(d / 'spike_badlen.npy', np.arange(ns + 1))
+        elif a in ('times_sec', 'templates_orig'):
+            arr = np.arange(ns, dtype=np.int64) * 3 + len(a)
+            np.save(d / ('spike_%s.npy' % a), arr)
+            T.attrs[a] = arr
     # raw data
     T.raw = None
     dat_path = []
